@@ -99,9 +99,16 @@ def census(prog):
     for name, b in cfg.items():
         for i in b.instructions:
             where.setdefault(id(i), []).append(name)
+    # structural fall-back: a refactor may copy statement nodes instead of re-using them
+    from collections import Counter
+    block_dumps = Counter(ast.dump(i) for b in cfg.values() for i in b.instructions)
+    stmt_dumps = Counter(ast.dump(s) for s in stmts)
     for s in stmts:
         n = len(where.get(id(s), []))
         if n != 1:
+            d = ast.dump(s)
+            if n == 0 and block_dumps.get(d, 0) == stmt_dumps[d]:
+                continue
             errs.append(("statement-count", type(s).__name__, n, ast.unparse(s)[:40]))
     wrapped = {}
     for name, b in cfg.items():
